@@ -663,6 +663,44 @@ def lhs_case(name, mk, info, n):
 # --------------------------------------------------------------------------
 
 
+def lhs_rows_case(kind):
+    """LHSSampler over a parameter-dependent shape, two parameter rows that also carry a variable the shape does not depend
+    on: the hypercube laid out for row i encloses the set of row i"""
+    cname = "lhs_rows/%s[t]/k2/extra_parameter_variable" % kind
+
+    def body(env):
+        sh = SH.PRIMS[kind](env, dep="t")
+        d = _dim(sh)
+        L = env.L
+        P, rows = SH.params(env, list(sh.pvars) + [("zz", 1)], 2)
+        for prm in rows:
+            env.assume(sh.oset.positive(prm, L))
+        s = tp.samplers.LHSSampler(sh.dom, n_points=1)
+        boxes = []
+        orig = s._create_lhs_in_bounding_box
+
+        def rec(bounding_box, device):
+            boxes.append(bounding_box)
+            return orig(bounding_box, device)
+
+        s._create_lhs_in_bounding_box = rec
+        with minmax_mode(env, "ite"):
+            s.sample_points(P)
+        q = SH.elems(env, env.tensor("q", (d,)))
+        return dict(boxes=[b.reshape(-1) for b in boxes], q=q, mem=[sh.oset.closure(q, prm, L, 0) for prm in rows], d=d)
+
+    def goals(o, L, env):
+        yield "one_hypercube_per_parameter_row", len(o["boxes"]) == 2
+        if len(o["boxes"]) != 2:
+            return
+        for i, b in enumerate(o["boxes"]):
+            for a in range(o["d"]):
+                yield "hypercube_of_row_encloses_set_of_row[row%d,axis%d]" % (i, a), L.Implies(
+                    o["mem"][i], L.And(rle(L, b[2 * a], o["q"][a]), rle(L, o["q"][a], b[2 * a + 1])))
+
+    return Case(cname, body, goals, family="lhs_rows/" + kind, params=dict(kind=kind), **_BOUNDS)
+
+
 def two_queries_case():
     """history: the SAME product object (factors depend on an external parameter, not on each other) is asked for its
     box twice with different parameter rows; each answer must be the exact box of its own row"""
@@ -778,6 +816,9 @@ def cases(tier):
         cs.append(point_case(1, 2, "moving"))
     cs.append(set_box_case(False))
     cs.append(set_box_case(True))
+    cs.append(lhs_rows_case("Interval"))
+    if not quick:
+        cs.append(lhs_rows_case("Circle"))
     for op in ("intersection", "union", "cut", "intersection_swapped"):
         cs.append(operand_box_kept_case(op))
     reps_q = ("Interval", "Circle", "Parallelogram", "(Circle+Parallelogram)", "(Interval-Interval)", "(Circle*Interval)",
